@@ -15,3 +15,4 @@ import Verif.Props.C12
 #print axioms Verif.Props.C12.wheel_wait_insert_le
 #print axioms Verif.Props.C12.wheel_wait_cancel_ge
 #print axioms Verif.Props.C12.wheel_wait_after_poll_zero_only_on_request
+#print axioms Verif.Props.C12.loop_wait_limited_only_by_a_live_arming
